@@ -50,16 +50,69 @@ void h_aes_lemma_shiftrows_inverse(void)
   __CPROVER_assert(spec_invshiftrows(spec_shiftrows(s)) == s, "[C09] InvShiftRows o ShiftRows = id");
   __CPROVER_assert(0, "WV_CANARY");
 }'''))
-    for c in range(4):
-        o.append(Ob('aes_lemma_mixcolumns_inverse_c%d' % c, ['C09', 'C01'], reveal=['AES_STEPS'], timeout=900, **AES, harness='''
-void h_aes_lemma_mixcolumns_inverse_c%d(void)
+    # InvMixColumns o MixColumns = id.  As one formula over a 32-bit column this is a parity problem no installed SAT/SMT
+    # back end finishes (measured: 900 s time-out), so it is derived from two byte-level facts about GF(2^8) multiplication
+    # that CBMC proves completely, with the multiplication opaque in the derivation:
+    o.append(Ob('aes_lemma_gmul_linear', ['C09', 'C01'], reveal=['AES_STEPS'], timeout=300, **AES, harness='''
+void h_aes_lemma_gmul_linear(void)
+{
+  unsigned char c, x, y;
+  __CPROVER_assert(spec_gmul(c, x ^ y) == (spec_gmul(c, x) ^ spec_gmul(c, y)), "[C09] F1: GF(2^8) multiplication distributes over xor");
+  __CPROVER_assert(0, "WV_CANARY");
+}'''))
+    o.append(Ob('aes_lemma_mixmatrix_product', ['C09', 'C01'], reveal=['AES_STEPS'], timeout=300, **AES, harness='''
+static const unsigned char WV_M[4][4] = {{2, 3, 1, 1}, {1, 2, 3, 1}, {1, 1, 2, 3}, {3, 1, 1, 2}};
+static const unsigned char WV_MI[4][4] = {{14, 11, 13, 9}, {9, 14, 11, 13}, {13, 9, 14, 11}, {11, 13, 9, 14}};
+void h_aes_lemma_mixmatrix_product(void)
+{
+  unsigned char a;
+  for (int i = 0; i < 4; ++i)
+    for (int j = 0; j < 4; ++j)
+    {
+      unsigned char acc = 0;
+      for (int k = 0; k < 4; ++k)
+        acc ^= spec_gmul(WV_MI[i][k], WV_M[k][j] == 1 ? a : spec_gmul(WV_M[k][j], a));
+      __CPROVER_assert(acc == (i == j ? a : 0), "[C09] F2: (InvMix matrix x Mix matrix)[i][j] applied to any byte is delta_ij");
+    }
+  __CPROVER_assert(0, "WV_CANARY");
+}'''))
+    o.append(Ob('aes_lemma_mixcolumns_inverse', ['C09', 'C01'], reveal=['AES_STEPS'], defines=['WV_USE_SPEC_AES', 'WV_OPAQUE_GMUL'],
+                contracts=['aes.h'], timeout=600, harness='''
+static const unsigned char WV_M[4][4] = {{2, 3, 1, 1}, {1, 2, 3, 1}, {1, 1, 2, 3}, {3, 1, 1, 2}};
+static const unsigned char WV_MI[4][4] = {{14, 11, 13, 9}, {9, 14, 11, 13}, {13, 9, 14, 11}, {11, 13, 9, 14}};
+void h_aes_lemma_mixcolumns_inverse(void)
 {
   wv_u128 s;
-  spec_st a = spec_unpack(s), b = spec_unpack(spec_invmixcolumns(spec_mixcolumns(s)));
-  __CPROVER_assert(a.b[0][%d] == b.b[0][%d] && a.b[1][%d] == b.b[1][%d] && a.b[2][%d] == b.b[2][%d] && a.b[3][%d] == b.b[3][%d],
-                   "[C09] InvMixColumns o MixColumns = id (column %d)");
+  spec_st a = spec_unpack(s);
+  for (int c = 0; c < 4; ++c)
+  {
+    unsigned char t[4][4];   /* t[k][j] = M[k][j] . a[j][c] */
+    for (int k = 0; k < 4; ++k)
+      for (int j = 0; j < 4; ++j)
+        t[k][j] = WV_M[k][j] == 1 ? a.b[j][c] : spec_gmul(WV_M[k][j], a.b[j][c]);
+    for (int i = 0; i < 4; ++i)
+    {
+      for (int k = 0; k < 4; ++k)
+      {
+        /* instances of F1 (aes_lemma_gmul_linear) */
+        unsigned char m = WV_MI[i][k];
+        __CPROVER_assume(spec_gmul(m, t[k][0] ^ t[k][1] ^ t[k][2] ^ t[k][3]) == (spec_gmul(m, t[k][0]) ^ spec_gmul(m, t[k][1] ^ t[k][2] ^ t[k][3])));
+        __CPROVER_assume(spec_gmul(m, t[k][1] ^ t[k][2] ^ t[k][3]) == (spec_gmul(m, t[k][1]) ^ spec_gmul(m, t[k][2] ^ t[k][3])));
+        __CPROVER_assume(spec_gmul(m, t[k][2] ^ t[k][3]) == (spec_gmul(m, t[k][2]) ^ spec_gmul(m, t[k][3])));
+      }
+      for (int j = 0; j < 4; ++j)
+      {
+        /* instance of F2 (aes_lemma_mixmatrix_product) for byte a[j][c] */
+        unsigned char acc = 0;
+        for (int k = 0; k < 4; ++k)
+          acc ^= spec_gmul(WV_MI[i][k], t[k][j]);
+        __CPROVER_assume(acc == (i == j ? a.b[j][c] : 0));
+      }
+    }
+  }
+  __CPROVER_assert(spec_invmixcolumns(spec_mixcolumns(s)) == s, "[C09] InvMixColumns o MixColumns = id on every state");
   __CPROVER_assert(0, "WV_CANARY");
-}''' % ((c,) * 10)))
+}''', note='GF(2^8) multiplication is opaque here; assumed instances of the proved lemmas F1 (distributivity) and F2 (matrix product)'))
     # subbytes on states is byte-wise sbox: the state-level inverse follows from the byte lemma
     o.append(Ob('aes_lemma_subbytes_bytewise', ['C09', 'C01'], reveal=['AES_STEPS'], timeout=300, **AES, harness='''
 void h_aes_lemma_subbytes_bytewise(void)
